@@ -441,6 +441,7 @@ func c19Generate(tier string, emit func(src string)) {
 		`<svg><use xlink:href="#a"></use></svg>`, `<svg viewBox="0 0 1 1"><path d="M0 0"/></svg>`, `<svg><style>.a &gt; .b{}</style></svg>`, `<math><mi>x</mi></math>`,
 		`<p>{{ 'a  b' }}</p>`, `<p>{{ s == "x  y" ? 1 : 2 }}</p>`, `<p>{{ "don't   stop" }}</p>`, `<td>{{ '6"   nail' }}</td>`, `<span>{{ 'say "hi"   now' }} and {{ "it's   ok" }}</span>`, "<p>{{ 'a\n  b' }}</p>", `<p title="{{ 'a  b' }}">t</p>`, `<p>{{ a &amp;lt; b }}</p>`, `<p>{{ a &lt; b }}</p>`,
 		`<p>a&nbsp;</p>`, `<p>&nbsp;a</p>`, `<p title="&nbsp;x&nbsp;">t</p>`, `<p>a&nbsp;&nbsp;b</p>`, `<b>x</b>&nbsp;<i>y</i>`,
+		`<html-view>x</html-view>`, `<htmlx a="b">k</htmlx><p>y</p>`,
 		`<script>var s = "</html>";</script>`, `<p>a</p><script>var s = "</html>";</script>`,
 	} {
 		emit(src)
